@@ -23,7 +23,7 @@
 (***************************************************************************)
 EXTENDS TrimImpl, Json
 
-CONSTANTS Topos, Lays, Fills, MaxSlots, Menus, ArgSel
+CONSTANTS Topos, Lays, Fills, MaxSlots, Menus, ArgSel   \* and Fixes of TrimImpl
 
 VARIABLES stage, g, out
 vars == <<stage, g, out>>
@@ -56,7 +56,7 @@ Layouts(inc) ==
   \cup {[name |-> "inc", svcs |-> <<Svc(fb, 0, M12)>>] : fb \in d1}
 
 \* fillers: one letter per included file
-FillDefs(inc, fl) ==
+FillDefs(inc, fl, base) ==
   LET RECURSIVE F(_, _)
       F(f, acc) ==
         IF f > Len(inc) THEN acc
@@ -66,11 +66,17 @@ FillDefs(inc, fl) ==
                         [] c = "c" -> Append(acc, Def("const", f, <<[n |-> "b"]>>))
                         [] c = "t" -> Append(acc, Def("typedef", f, <<[n |-> "b"]>>))
                         [] c = "r" -> Append(Append(acc, Def("const", f, <<[n |-> "b"]>>)),
-                                             [Def("const", 1, <<[n |-> "b"]>>) EXCEPT !.cv = <<Len(acc) + 1>>]))
+                                             [Def("const", 1, <<[n |-> "b"]>>) EXCEPT !.cv = <<base + Len(acc) + 1>>]))
   IN F(2, <<>>)
 FillOK(inc, fl) == \A f \in 2..Len(inc) : fl[f - 1] = "r" => f \in Range(inc[1])
 
 \* ------------------------------------------------------------------ slots
+Services(G) == {d \in 1..Len(G.defs) : G.defs[d].k = "service"}
+StructLikes(G) == {d \in 1..Len(G.defs) : G.defs[d].k \in SLKinds}
+RootSvcs(G) == {s \in Services(G) : G.defs[s].f = 1}
+Files(G) == 1..Len(G.inc)
+RECURSIVE GAnc(_, _)
+GAnc(G, s) == IF G.defs[s].ext = 0 THEN {s} ELSE {s} \cup GAnc(G, G.defs[s].ext)
 Ref(d) == [n |-> "r", d |-> d]
 Base == [n |-> "b"]
 Wrap(w, t) == CASE w = "d"  -> t
@@ -91,7 +97,7 @@ Mid(G, uf, f) == {m \in Range(G.inc[uf]) : f \in Range(G.inc[m])}
 
 SlotOK(st, n, sl) ==
   LET G == st.G  uf == UserFile(st, n, sl) IN
-  /\ sl.f \in Files(G)
+  /\ sl.f \in 1..Len(G.inc)
   /\ IF sl.via = "tm" THEN Mid(G, uf, sl.f) # {} ELSE (sl.f = uf \/ sl.f \in Range(G.inc[uf]))
   /\ sl.u.c = "fn" => /\ sl.u.s \in Services(G) /\ sl.u.i \in DOMAIN G.defs[sl.u.s].fns
                       /\ sl.u.pos = "r" => G.defs[sl.u.s].fns[sl.u.i].r = <<>>
@@ -181,7 +187,7 @@ NoPat == <<>>
 
 FnNames(G, x) == {G.defs[x].fns[i].name : i \in DOMAIN G.defs[x].fns}
 \* <<derived or base service, base service>> pairs below a root service
-BasePairs(G) == UNION {{<<r, x>> : x \in AncSet(G, r) \ {r}} : r \in RootSvcs(G)}
+BasePairs(G) == UNION {{<<r, x>> : x \in GAnc(G, r) \ {r}} : r \in RootSvcs(G)}
 PatMenu(G) ==
   LET R == RootSvcs(G)  BP == BasePairs(G) IN
   {NoPat}
@@ -213,9 +219,18 @@ ArgMenu(G) ==
            \cup {Arg(p, "unset", FALSE, <<>>, TRUE) : p \in r1})
      \cup (IF hasC THEN {Arg(NoPat, "unset", TRUE, <<>>, FALSE), Arg(NoPat, "unset", TRUE, <<>>, TRUE)} ELSE {})
 
-\* ArgSel = "all": the whole menu; "few": no-filter + one of each family (quick tier)
-Args(G) == IF ArgSel = "all" THEN ArgMenu(G)
-           ELSE {a \in ArgMenu(G) : Len(a.pats) <= 1 /\ (a.pats = NoPat \/ a.pats[1].q \in {"exact", "unq", "prefix"})}
+\* ArgSel = "all": the whole menu; "few": no filter, the functions of the first root service one at a time,
+\* preserve off, one preserved-struct list, the comment switch
+Args(G) ==
+  IF ArgSel = "all" THEN ArgMenu(G)
+  ELSE LET R == RootSvcs(G)
+           r == CHOOSE x \in R : \A y \in R : x <= y
+           SL == StructLikes(G)
+           d == CHOOSE x \in SL : \A y \in SL : x <= y
+       IN {Arg(NoPat, "unset", FALSE, <<>>, FALSE)}
+          \cup (IF R = {} THEN {} ELSE {Arg(<<Pat("exact", r, n)>>, "unset", FALSE, <<>>, FALSE) : n \in FnNames(G, r)})
+          \cup (IF SL = {} THEN {} ELSE {Arg(NoPat, "off", FALSE, <<>>, FALSE), Arg(NoPat, "unset", FALSE, <<d>>, FALSE)})
+          \cup (IF \E x \in SL : G.defs[x].pres = "c" THEN {Arg(NoPat, "unset", TRUE, <<>>, FALSE)} ELSE {})
 
 \* ------------------------------------------------------------------ the state machine
 Init == stage = "root" /\ out = <<>> /\ g = [G |-> [inc |-> <<<<>>>>, defs |-> <<>>], sl |-> <<>>, topo |-> "", lay |-> "", fill |-> <<>>, slots |-> <<>>]
@@ -230,7 +245,7 @@ PickFill ==
   /\ stage = "lay"
   /\ \E fl \in [1..(Len(g.G.inc) - 1) -> Fills] :
        /\ FillOK(g.G.inc, fl)
-       /\ g' = [g EXCEPT !.G.defs = @ \o FillDefs(g.G.inc, fl), !.fill = fl]
+       /\ g' = [g EXCEPT !.G.defs = @ \o FillDefs(g.G.inc, fl, Len(g.G.defs)), !.fill = fl]
        /\ stage' = "prog" /\ UNCHANGED out
 
 PickSlot ==
@@ -240,7 +255,7 @@ PickSlot ==
 
 \* B => A, case export.  The evaluation of a program's cases is a step of its own so that the worker that takes
 \* the program state from the queue does it (all workers busy), not the worker that generated the state.
-Cases(G) == {LET b == BResult(G, a) IN [ar |-> a, b |-> b, bok |-> Allowed(G, a, b)] : a \in Args(G)}
+Cases(G) == LET I == Info(G) IN {[ar |-> a] : a \in Args(G)}
 Evaluate ==
   /\ stage = "prog" /\ stage' = "done" /\ UNCHANGED g
   /\ out' = Cases(g.G)
